@@ -528,6 +528,27 @@ def kindHi : IntKind → Option Int
   | .uint64 => some 18446744073709551616     -- float64(math.MaxUint64) is 2^64
   | _ => none
 
+/-- the kind switch as a table: (type, `reflect.Kind` name, `type`, `format`, `minimum`, `maximum`); compared with the
+    table read off the source (`Gen.genKinds`) in Props/C18.lean -/
+def reflectKind : IntKind → String
+  | .int => "Int" | .int8 => "Int8" | .int16 => "Int16" | .int32 => "Int32" | .int64 => "Int64" | .uint => "Uint"
+  | .uint8 => "Uint8" | .uint16 => "Uint16" | .uint32 => "Uint32" | .uint64 => "Uint64"
+def allIntKinds : List IntKind := [.int, .int8, .int16, .int32, .int64, .uint, .uint8, .uint16, .uint32, .uint64]
+def modelKindsT : List (GoType × String × String × String × Option Int × Option Int) :=
+  [(.bool, "Bool", "boolean", "", none, none)] ++
+  allIntKinds.map (fun k => (.int k, reflectKind k, "integer", kindFmt k, kindLo k, kindHi k)) ++
+  [(.float true, "Float32", "number", "float", none, none), (.float false, "Float64", "number", "double", none, none),
+   (.string, "String", "string", "", none, none)]
+def modelKinds : List (String × String × String × Option Int × Option Int) := modelKindsT.map (·.2)
+/-- what the model covers of the source: the kinds with their own code, the tag keys and options, the option set -/
+def modelKindsOther : List String := ["Func", "Chan", "Slice", "Map", "Struct", "default"]
+def modelTagKeys : List String := ["json", "json", "yaml"]
+def modelTagOptions : List String := ["omitempty", "string"]
+def modelOptFields : List String :=
+  ["ExportComponentSchemasOptions.ExportComponentSchemas", "ExportComponentSchemasOptions.ExportTopLevelSchema",
+   "ExportComponentSchemasOptions.ExportGenerics", "generatorOpt.useAllExportedFields", "generatorOpt.throwErrorOnCycle",
+   "generatorOpt.schemaCustomizer", "generatorOpt.exportComponentSchemas", "generatorOpt.typeNameGenerator"]
+
 def leaf (ty : String) (nl : Bool) (fmt : String) (lo hi : Option Int) : Sch :=
   .node ty nl fmt lo hi none [] none false
 
